@@ -978,6 +978,13 @@ func (d *Pegnetd) ApplyTransactionBlock(sqlTx *sql.Tx, eblock *factom.EBlock) er
 		} else if isReplay {
 			continue
 		}
+		// An entry hash that was recorded before (it is still pending, or it was rejected) must not
+		// be recorded again: the history tables are keyed on the entry hash.
+		if recorded, err := d.Pegnet.IsTransactionHistoryRecorded(sqlTx, txBatch.Entry.Hash); err != nil {
+			return err
+		} else if recorded {
+			continue
+		}
 		// At this point, we know that the transaction batch is valid and able to be executed.
 
 		if err = d.Pegnet.InsertTransactionHistoryTxBatch(sqlTx, blockorder, txBatch, eblock.Height); err != nil {
